@@ -77,7 +77,8 @@ pub fn boundary_name() -> impl Strategy<Value = MName> {
     (
         prop_oneof![Just(255usize), Just(254), Just(253), 200usize..=255],
         prop_oneof![Just(1usize), Just(63), Just(62), 1usize..=63],
-        prop_oneof![Just(b'a'), Just(b'A'), Just(b'.'), Just(0u8), Just(0xe9u8)],
+        // fill octets incl. ones that are written as \\DDD in text (the longest text forms)
+        prop_oneof![Just(b'a'), Just(b'A'), Just(b'.'), Just(0u8), Just(0xe9u8), Just(b' '), Just(0x7fu8), Just(0x01u8), Just(b'\\')],
     )
         .prop_map(|(t, l, f)| name_of_wire_len(t, l, f).unwrap_or_else(MName::root))
 }
